@@ -6,6 +6,9 @@
 -/
 import LcdbModel.Generated.Consts
 import LcdbModel.Model.LogFormat
+import LcdbModel.Model.WriteBatch
+import LcdbModel.Model.InternalKey
+import LcdbModel.Model.VersionEdit
 namespace Lcdb.ConstsOk
 open Lcdb
 
@@ -14,5 +17,12 @@ theorem logHeaderSize_ok : Generated.logHeaderSize = logHeaderSize := by decide
 theorem recTypes_ok : Generated.recZero = 0 ∧ Generated.recFull = tyFull ∧ Generated.recFirst = tyFirst ∧
     Generated.recMiddle = tyMiddle ∧ Generated.recLast = tyLast := by decide
 theorem crcMask_ok : Generated.crcMaskDelta = maskDelta.toNat ∧ Generated.crcMaskRotR = 15 ∧ Generated.crcMaskRotL = 17 := by decide
+
+theorem editTags_ok : Generated.tagComparator = tagComparator ∧ Generated.tagLogNumber = tagLogNumber ∧
+    Generated.tagNextFileNumber = tagNextFileNumber ∧ Generated.tagLastSequence = tagLastSequence ∧
+    Generated.tagCompactPointer = tagCompactPointer ∧ Generated.tagDeletedFile = tagDeletedFile ∧
+    Generated.tagNewFile = tagNewFile ∧ Generated.tagPrevLogNumber = tagPrevLogNumber ∧ Generated.numLevels = numLevels := by decide
+theorem batch_ok : Generated.batchHeader = batchHeaderSize ∧ Generated.typeDeletion = typeDeletion ∧ Generated.typeValue = typeValue := by decide
+theorem ikey_ok : Generated.maxSequenceBits = 56 ∧ Generated.valtypeForSeek = valtypeSeek ∧ maxSequence = 2 ^ Generated.maxSequenceBits - 1 := by decide
 
 end Lcdb.ConstsOk
